@@ -48,6 +48,15 @@ class NodeH:
                 return (seq, t)
         return None
 
+    def ended(self):
+        """(seq, t) at which the body was over for the purpose of counting
+        completions: returned, raised, or ended with a CancelledError of its
+        own making"""
+        for seq, t, kind in self.exits:
+            if kind in ('ret', 'exc', 'scancel'):
+                return (seq, t)
+        return None
+
     def active_at(self, seq):
         """entered at or before seq and not exited at or before seq"""
         n_in = sum(1 for s, _ in self.enters if s <= seq)
@@ -169,7 +178,7 @@ class SchedRun:
             if not self.members:
                 self.fin = self.begin
             elif self.finite:
-                fins = [mh.finished() for mh in self.finite]
+                fins = [mh.ended() for mh in self.finite]
                 if all(f is not None for f in fins):
                     self.fin = max(fins)
         self.exp_t = None
@@ -214,6 +223,12 @@ class SchedRun:
             pc = self.hist.sr(parent['id']).close_time()
             if pc is not None:
                 cands.append(pc)
+        if parent is None and self.begin is not None and \
+                self.hist.run.knobs.get('entry') == 'wait_for':
+            ext = self.hist.snap(self.hist.run.t_begin
+                                 + self.hist.run.knobs['entry_timeout'])
+            if ext is not None:
+                cands.append(ext)
         if self.over is not None:
             cands.append(self.over[1])
         self._close = min(cands) if cands else None
